@@ -25,8 +25,10 @@ Base(p, ao, ty, h) ==
     LET d == Delta(1, p, 1) IN [sd |-> SD(ModelHash(d, h), 2, ao, ty), delta |-> d, h |-> h]
 
 Reser == {"none", "member_order", "whitespace", "escapes"}
-SdMods == {"sd_deltahash", "sd_recoverycommitment", "sd_anchororigin", "sd_type"}
-DeltaMods == {"delta_updatecommitment", "delta_patch_content", "delta_patch_added", "delta_patch_removed"}
+SdMods == {"sd_deltahash", "sd_deltahash_truncated", "sd_deltahash_empty_digest", "sd_recoverycommitment",
+           "sd_anchororigin", "sd_type"}
+DeltaMods == {"delta_updatecommitment", "delta_patch_content", "delta_patch_added", "delta_patch_removed",
+              "delta_null_member_added"}
 Mods == Reser \cup SdMods \cup DeltaMods
 
 Fresh == 99   \* a value that differs from every base value
@@ -34,6 +36,10 @@ Fresh == 99   \* a value that differs from every base value
 Modify(r, m) ==
     CASE m \in Reser -> r
       [] m = "sd_deltahash"          -> [r EXCEPT !.sd.dh = ModelHash(Delta(Fresh, r.delta.patch, 1), r.h)]
+      \* a multihash of the right algorithm whose digest is only a prefix of the delta's digest (or empty):
+      \* a different hash value, hence a different DID, and it does not bind the delta
+      [] m = "sd_deltahash_truncated"    -> [r EXCEPT !.sd.dh = <<"truncated", @>>]
+      [] m = "sd_deltahash_empty_digest" -> [r EXCEPT !.sd.dh = <<"empty-digest", @>>]
       [] m = "sd_recoverycommitment" -> [r EXCEPT !.sd.rc = Fresh]
       [] m = "sd_anchororigin"       -> [r EXCEPT !.sd.ao = IF @ = 0 THEN Fresh ELSE IF @ = 1 THEN Fresh ELSE 0]
       [] m = "sd_type"               -> [r EXCEPT !.sd.ty = IF @ = 0 THEN Fresh ELSE 0]
@@ -41,12 +47,14 @@ Modify(r, m) ==
       [] m = "delta_patch_content"   -> [r EXCEPT !.delta.pv = 2]
       [] m = "delta_patch_added"     -> [r EXCEPT !.delta.pv = 3]
       [] m = "delta_patch_removed"   -> [r EXCEPT !.delta.pv = 4]
+      [] m = "delta_null_member_added" -> [r EXCEPT !.delta.pv = 5]
 
 \* the DID suffix under a configured algorithm list
 Suffix(r, algs) == ModelHash(r.sd, algs[1])
 
 \* outside batch mode: hashes computed with a configured algorithm, delta bound by its hash
-Accepted(r, algs) == InList(r.h, algs) /\ IsValid(r.delta, r.sd.dh)
+WellFormedHash(h) == h[1] = "B64"
+Accepted(r, algs) == InList(r.h, algs) /\ WellFormedHash(r.sd.dh) /\ IsValid(r.delta, r.sd.dh)
 
 Cases == {c \in {[base |-> Base(p, ao, ty, h), mod |-> m, algs |-> l] :
                     p \in Patches, ao \in {0, 1, 2}, ty \in {0, 1}, h \in Algs, m \in Mods, l \in AlgLists} :
